@@ -26,9 +26,24 @@ var c19Kinds = []string{"good", "empty-file", "truncated-good", "random-bytes", 
 func c19Counts(tier string) (enumerated, random, cli, strace int) {
 	n := len(c19Kinds)
 	if tier == "thorough" {
-		return n + n*n + n*n*n + n*n*n*n, 6000, 200, 60
+		return n + n*n + n*n*n + n*n*n*n, 6000 + 2*len(c19RunSizes(tier)), 200, 60
 	}
-	return n + n*n + n*n*n, 1200, 24, 10
+	return n + n*n + n*n*n, 1200 + 2*len(c19RunSizes(tier)), 24, 10
+}
+
+// c19RunSizes: lengths of runs of consecutive bad (or good) entries swept over the threshold list.
+func c19RunSizes(tier string) []int {
+	var out []int
+	max := 1100
+	if tier == "thorough" {
+		max = 4200
+	}
+	for _, n := range core.Thresholds(max) {
+		if n >= 15 {
+			out = append(out, n)
+		}
+	}
+	return out
 }
 
 func init() {
@@ -189,6 +204,20 @@ func runC19(c *core.Ctx) {
 			rem -= pow
 		}
 		c.Feature(fmt.Sprintf("enumerated-directory-size-%d", len(entries)))
+	case c.Index < nEnum+2*len(c19RunSizes(c.Tier)):
+		// size sweep: a run of n consecutive bad entries (or n good files) between good files
+		k := c.Index - nEnum
+		n := c19RunSizes(c.Tier)[k/2]
+		entries = append(entries, c19Entry{"a-first-good", "good"})
+		for i := 0; i < n; i++ {
+			kind := "good"
+			if k%2 == 0 {
+				kind = core.Pick(r, []string{"empty-file", "random-bytes", "sub-directory", "dangling-symlink", "truncated-good"})
+			}
+			entries = append(entries, c19Entry{fmt.Sprintf("m-%05d", i), kind})
+		}
+		entries = append(entries, c19Entry{"z-last-good", "good"}, c19Entry{"zz-after", "good"})
+		c.Feature(fmt.Sprintf("run-size-sweep:bad=%v", k%2 == 0))
 	default:
 		maxN := 12
 		if c.Thorough() {
@@ -217,7 +246,7 @@ func runC19(c *core.Ctx) {
 			entries = append(entries, c19Entry{name: name, kind: kind})
 		}
 		c.Feature("random-directory-hostile-names")
-		if c.Index >= nEnum+nRand {
+		if c.Index >= nEnum+nRand && c.Index >= nEnum+2*len(c19RunSizes(c.Tier)) {
 			mode = "cli"
 			if c.Index >= nEnum+nRand+nCLI {
 				mode = "strace"
